@@ -1,6 +1,13 @@
 package rules
 
 import (
+	"fmt"
+	"go/types"
+	"sort"
+	"strings"
+
+	"golang.org/x/tools/go/ssa"
+
 	"gzverify/px"
 )
 
@@ -77,4 +84,90 @@ func c13attach(c *Ctx) {
 		})
 	}
 	c.R.Min(rule, 2, "Registry.Monitor, cluster.monitor")
+}
+
+// c13atomicSnapshot (R10, round 5): the snapshot a (re)load hands to the diff and the revision the watch resumes from
+// come from ONE read. In (*cluster).load no response of the store is consumed inside the loop that fetches
+// responses (the retry loop only tests the error): a snapshot assembled page by page is read at several revisions,
+// and a key that changed in an earlier page after that page was read — but before the last page's revision — is in
+// neither the snapshot nor the watch that starts after that revision (seed r5-C13-3).
+func c13atomicSnapshot(c *Ctx) {
+	rule := "C13.R10"
+	f := c.fn(rule, discovInt, "(*cluster).load")
+	if f == nil {
+		return
+	}
+	isResp := func(t types.Type) bool { return strings.HasSuffix(typeString(t), ".GetResponse") }
+	inCycleWith := func(a, b *ssa.BasicBlock) bool {
+		return (a == b && reaches(a, a)) || (reaches(a, b) && reaches(b, a))
+	}
+	var bad []string
+	sources := 0
+	for _, b := range f.Blocks {
+		for _, ins := range b.Instrs {
+			call, ok := ins.(*ssa.Call)
+			if !ok {
+				continue
+			}
+			// a call producing a response (directly or as a tuple component)
+			var resp ssa.Value
+			if pt, ok := call.Type().(*types.Pointer); ok && isResp(pt.Elem()) {
+				resp = call
+			} else if tup, ok := call.Type().(*types.Tuple); ok {
+				for i := 0; i < tup.Len(); i++ {
+					if pt, ok := tup.At(i).Type().(*types.Pointer); ok && isResp(pt.Elem()) {
+						for _, r := range *call.Referrers() {
+							if ex, ok := r.(*ssa.Extract); ok && ex.Index == i {
+								resp = ex
+							}
+						}
+					}
+				}
+			}
+			if resp == nil {
+				continue
+			}
+			sources++
+			// follow the response through local variables and phis; report consumers inside the fetch loop
+			seen := map[ssa.Value]bool{}
+			var follow func(v ssa.Value)
+			follow = func(v ssa.Value) {
+				if v == nil || seen[v] || v.Referrers() == nil {
+					return
+				}
+				seen[v] = true
+				for _, r := range *v.Referrers() {
+					switch x := r.(type) {
+					case *ssa.Store:
+						if al, ok := x.Addr.(*ssa.Alloc); ok && x.Val == v {
+							for _, lr := range *al.Referrers() {
+								if u, ok := lr.(*ssa.UnOp); ok {
+									follow(u)
+								}
+							}
+							continue
+						}
+					case *ssa.Phi:
+						follow(x)
+						continue
+					case *ssa.DebugRef:
+						continue
+					case *ssa.BinOp:
+						continue // nil test
+					case *ssa.Return:
+						continue
+					}
+					if ri, ok := r.(ssa.Instruction); ok && ri.Block() != nil && inCycleWith(call.Block(), ri.Block()) {
+						bad = append(bad, fmt.Sprintf("%s: a response is consumed inside the loop that fetches responses (%s): the snapshot is assembled from several reads", c.P.Pos(ri.Pos()), strings.SplitN(ri.String(), "\n", 2)[0]))
+					}
+				}
+			}
+			follow(resp)
+		}
+	}
+	sort.Strings(bad)
+	if len(bad) > 3 {
+		bad = bad[:3]
+	}
+	c.R.Check(len(bad) == 0 && sources >= 1, rule, discovInt+".(*cluster).load#one-read", "the snapshot handed to the diff and the revision the watch resumes from are taken from one response: nothing consumes a response inside the loop that fetches them", posOf(c, f), fmt.Sprintf("%d response sources; %s", sources, strings.Join(bad, "; ")), bad, sources)
 }
